@@ -391,6 +391,17 @@ class Gen:
         self.add(mk_struct("TagHost0", "named", [mk_field("t", ("named", "TagSt0", []), flatten=True)], flatten_ok=False, no_ref=True))
         self.add(mk_struct("TagHost2", "named", [mk_field("t", ("named", "TagSt", []), flatten=True), mk_field("u", ("named", "TagSt", []), inline=True),
                                                  mk_field("v", ("vec", ("named", "TagSt0", [])))], flatten_ok=False, no_ref=True))
+        # object literals that meet INSIDE a field type (an internally tagged newtype variant whose payload is inlined):
+        # the host's merge of its own operands must leave them alone
+        self.add(mk_enum("TagNew", [mk_variant("A", "tuple", [mk_field("_0", ("named", "Foo", []), inline=True)]), mk_variant("B", "unit")],
+                         tagging=("internal", "kind"), flatten_ok=False, no_ref=True))
+        self.add(mk_struct("MergeHost", "named", [mk_field("e", ("named", "TagNew", []), inline=True), mk_field("z", ("leaf", "u8")),
+                                                  mk_field("f", ("named", "Foo", []), flatten=True)], flatten_ok=False, no_ref=True))
+        self.add(mk_struct("MergeHost2", "named", [mk_field("v", ("vec", ("named", "TagNew", [])), inline=True)], flatten_ok=False, no_ref=True))
+        # a lone flattened field whose text begins and ends with a parenthesis that do not belong together
+        self.add(mk_struct("TwoEnums", "named", [mk_field("a", ("named", "Shape", []), flatten=True), mk_field("b", ("named", "OneArm2", []), flatten=True)],
+                           flatten_ok=True, no_ref=True))
+        self.add(mk_struct("LoneFlat", "named", [mk_field("t", ("named", "TwoEnums", []), flatten=True)], flatten_ok=False, no_ref=True))
         # enums with ONE live variant, flattened next to other fields: the single arm is itself a union
         self.add(mk_enum("OneArm", [mk_variant("S", "tuple", [mk_field("_0", ("named", "Shape", []), inline=True)])],
                          tagging=("untagged",), flatten_ok=True, no_ref=True))
